@@ -1,6 +1,7 @@
 /-
 C11 driver.
   print <cfg> <file>                      → hex of the model's rendering of the assembly file
+  wf <cfg> <file>                         → 1 | 0: the token hypotheses of print_faithful hold
   accept-print <cfg> <file> <output-hex>  → ok | bad-…   (the implementation's text, read back with
                                             splitNL/lexLine/parseFile, says what the file says)
   accept-asm <cfg> <file> <n> fn*         → ok | bad-…   (decoded object code: instruction order per
@@ -183,6 +184,11 @@ def handle : Handler
     let (cfg, ts) ← cfgTok ts
     let (f, _) ← fileTok ts
     some (hexTxt (render (printFile names cfg f)))
+  | "wf" :: ts => do
+    -- the hypotheses of print_faithful (and a non-negative frame), evaluated
+    let (cfg, ts) ← cfgTok ts
+    let (f, _) ← fileTok ts
+    some (if decide (WFFile names cfg f) && f.functions.all (fun fn => decide (0 ≤ fn.frame)) then "1" else "0")
   | "accept-print" :: ts => do
     let (_, ts) ← cfgTok ts
     let (f, ts) ← fileTok ts
@@ -199,6 +205,6 @@ def handle : Handler
   | _ => none
 
 def handlers : List (String × Handler) :=
-  ["print", "accept-print", "accept-asm", "accept-assembles", "accept-decode"].map (·, handle)
+  ["print", "wf", "accept-print", "accept-asm", "accept-assembles", "accept-decode"].map (·, handle)
 
 end Avo.Drv.C11
